@@ -15,7 +15,7 @@ RULE = ("correspondence: flattened definitions of McxVchainDirty(k, nt, ctrl_sta
         "random-state evolution of the implementation circuits vs the reference permutation (harness/props/c05_eval.py). "
         "distinct = distinct parameter tuples; non-trivial = at least 3 controls")
 ASSUMPTIONS = ["Qiskit's x, cx, ccx, c3x, c4x, mcx and u(theta,0,0)=RY(theta) are ideal gates (validated numerically per run)",
-               "multi-target fan-in/fan-out and the <=3-control branches are tied by correspondence and evaluated, not proved"]
+               "multi-target chains and the small branches are proved on the model's gate lists (C05_vchain_multi_target, C05_vchain_multi_placed, C05_linear_mcx_all) and tied by correspondence; the single Qiskit gates they use are taken as ideal"]
 TRUSTED = ["harness/flatten.py; canonicalisation cx/ccx/c3x/c4x/mcx -> SMCX controls target",
            "harness/translate.py (Gen_majority regenerated from qclib/gates/majority.py on every run)"]
 
